@@ -232,6 +232,27 @@ def link_lists(h, kind):
     return out
 
 
+OWNED = {"block": [("data_arrays", "array"), ("data_frames", "frame"), ("tags", "tag"), ("multi_tags", "mtag"),
+                   ("groups", "group"), ("sources", "source")],
+         "source": [("sources", "source")], "section": [("sections", "section"), ("props", "prop")]}
+
+
+def owned_containers(h, kind, depth=0):
+    """(label, container) for every name-keyed container of the entity and of what it owns"""
+    out = []
+    for role, ck in OWNED.get(kind, []):
+        try:
+            cont = getattr(h, role)
+            members = list(cont)
+        except Exception:  # noqa (the content comparison reports unreadable containers)
+            continue
+        out.append(("%s.%s" % (kind, role), cont, members))
+        if depth < 4:
+            for m in members:
+                out += owned_containers(m, ck, depth + 1)
+    return out
+
+
 def run_case(case, ctx):
     p1 = os.path.join(ctx.workdir, "c20a.nix")
     p2 = os.path.join(ctx.workdir, "c20b.nix")
@@ -243,7 +264,7 @@ def run_case(case, ctx):
     flags = set()
     nontrivial = False
     try:
-        for op in ops.rich_prefix() + case.get("build", []):
+        for op in ops.rich_prefix() + case.get("idlike", []) + case.get("build", []):
             it.step(op)
         pre = case.get("precopy")
         if pre:
@@ -449,6 +470,31 @@ def run_case(case, ctx):
                     break
         if nlists:
             flags.add("copy-link-lists-probed")
+        # ---------------- ... and what the copy owns is found under its name
+        for label, cont, members in owned_containers(ch, kind):
+            names = [m.name for m in members]
+            for m in members:
+                if names.count(m.name) != 1:
+                    continue
+                probs = []
+                try:
+                    if m.name not in cont:
+                        probs.append("name-not-in-container")
+                    if cont[m.name].id != m.id:
+                        probs.append("lookup-by-name-gives-another")
+                    if cont[m.id].id != m.id:
+                        probs.append("lookup-by-id-gives-another")
+                except KeyError:
+                    probs.append("lookup-fails")
+                except Exception as exc:  # noqa
+                    probs.append("lookup-raised-" + type(exc).__name__)
+                if idlike(m.name):
+                    flags.add("copy-holds-a-child-with-an-id-like-name")
+                if probs:
+                    ctx.violation("C20/copy-container-disagrees-with-its-members/%s/%s%s" % (
+                        key_cls, label, "/id-like-name" if idlike(m.name) else ""), case,
+                        {"member": [m.name, m.id], "problems": probs})
+                    break
         # ---------------- returned handle denotes the copy
         same_parent_cls = "same-parent" if same_container else "other-container"
         try:
@@ -521,6 +567,18 @@ BUILD = ["mk_section", "mk_prop", "mk_prop", "mk_group", "mk_array_ul", "mk_arra
          "link", "set_meta", "set_definition", "set_array", "set_tag", "set_prop", "sec_link", "sec_link"]
 
 
+U1, U2 = "6c2b6a52-9a2f-4d4b-8a3e-0d8f6f1c2a11", "0f8fad5b-d9cb-469f-a165-70867728950e"
+# children whose NAME looks like an id (legal free text), in the places copies are taken from
+IDLIKE_CHILDREN = [
+    {"op": "mk_array", "name": U1, "shape": [3], "fill": "ramp", "blk": 0, "seed": 1, "type": "t", "how": "name",
+     "dtype": "float64", "via": "data"},
+    {"op": "mk_tag", "name": U2, "blk": 0, "how": "name", "pos": [1.0], "type": "t"},
+    {"op": "mk_section", "p": 0, "name": U1, "type": "t", "how": "name"},
+    {"op": "mk_prop", "how": "name", "name": U2, "sec": 0, "vals": [1, 2]},
+    {"op": "mk_source", "how": "name", "p": 0, "type": "t", "blk": 0, "name": U2},
+]
+
+
 def case_strategy():
     copy = st.fixed_dictionaries({
         "kind": st.sampled_from(KINDS + ["block", "section", "array"]), "t": ops.IDX, "d": ops.IDX,
@@ -528,7 +586,9 @@ def case_strategy():
         "keep": st.booleans(), "name": st.sampled_from([None, None, "copied", "ü copy", "sig", "meta", "tag", "blk0"]),
         "children": st.booleans(), "via": st.sampled_from(["owner", "owner", "link"])})
     return st.fixed_dictionaries({
-        "build": ops.program(BUILD, min_size=0, max_size=12, name_pool=["sig", "sub", "p1"]),
+        "idlike": st.lists(st.sampled_from(IDLIKE_CHILDREN), max_size=2, unique_by=lambda o: o["op"]),
+        "build": ops.program(BUILD, min_size=0, max_size=12, name_pool=["sig", "sub", "p1", "6c2b6a52-9a2f-4d4b-8a3e-0d8f6f1c2a11",
+                                                                                "0f8fad5b-d9cb-469f-a165-70867728950e"]),
         "copy": copy,
         "mutations": st.lists(st.sampled_from(["copy", "source", "returned", "copy-del", "source-del"]), min_size=1, max_size=5),
         "precopy": st.one_of(st.none(), st.none(), st.fixed_dictionaries({
